@@ -34,6 +34,15 @@ Explorations over the real detectors (DESIGN §4 C14), all twin / differential o
   of the same dtype.  Each of the 2^L assignments is executed from scratch (``reuse_enum``): deep-copied snapshots
   would cut the link between a detector and the caller's buffer that this family looks for.
 
+* ``inject-shape-<Detector>`` (round 4) -- the inject-* scheme and oracle for the LAYOUTS in which a wrong number of
+  observations / values can arrive: labels with 2, 3, 4 or 0 observations as flat / column / row / nested / list-of-arrays /
+  3-D / 2 x 2 containers (list, tuple, ndarray, Series, DataFrame; ``Y_SHAPES``), in y_true, y_pred or both; X with
+  3 or 0 rows, rows given as tuples or lists of arrays, the wrong number of values in 1-D containers, a bare value
+  to a multivariate or a batch detector, a univariate batch given as one row.  The valid neighbours of the
+  malformed call arrive as bare numbers / 0-dimensional arrays / tuples / nested lists (``shape_neighbours``).
+* ``equivx-<Detector>`` (round 4) -- container equivalence for numpy scalars, 0-dimensional ndarrays, tuples, nested
+  lists / tuples and lists of arrays (``eqx_containers``).
+
 Tasks: one per detector x parameter set x base history x default container x
 chunk of injection positions (``cfg["pos"]``); the alphabet offers the malformed
 calls only at those positions, a non-default container only to the two
@@ -252,10 +261,12 @@ class Adapter:
     def make(self, p):
         return self.d.cls(**self.d.ctor(p))
 
-    def bases(self, tier):
+    def bases(self, tier, nmax=None):
         """every sequence of length <= 3 over the menu, extended by the fixed tail."""
         out = []
-        for n in range(0, (self.quick_prefix if tier == "quick" else self.thorough_prefix) + 1):
+        if nmax is None:
+            nmax = self.quick_prefix if tier == "quick" else self.thorough_prefix
+        for n in range(0, nmax + 1):
             for s in itertools.product(self.menu, repeat=n):
                 b = list(s) + list(self.tail[n:])
                 if b not in out:
@@ -541,8 +552,8 @@ class Batch(Adapter):
         else:
             det.update(X)
 
-    def bases(self, tier):
-        return [[["ref", 0]] + b for b in super().bases(tier)]
+    def bases(self, tier, nmax=None):
+        return [[["ref", 0]] + b for b in super().bases(tier, nmax)]
 
     def faults(self, est, det):
         out = []
@@ -963,9 +974,18 @@ ENSEMBLES = {
 # fault injection
 # ----------------------------------------------------------------------------
 class Inject(System):
+    family = ""  # counter prefix of a sub-family ("" = the original inject-* family)
+
     def __init__(self, ad):
         self.ad = ad
         self.name = "inject-" + ad.name
+
+    def _conts(self, cfg):
+        """containers offered to the two valid neighbours of the malformed call"""
+        return self.ad.inj_containers
+
+    def _faults(self, state):
+        return self.ad.faults(state["est"], state["D"])
 
     def init(self, cfg):
         p = cfg["params"]
@@ -988,7 +1008,7 @@ class Inject(System):
     def alphabet(self, cfg, state, pos):
         base, c0 = cfg["base"], cfg["c0"]
         k = state["k"]
-        conts = self.ad.inj_containers
+        conts = self._conts(cfg)
         if state["faulted"]:
             if k >= len(base):
                 return []
@@ -1001,7 +1021,7 @@ class Inject(System):
             # c0: the history goes on; any other container: this is the left neighbour of the malformed call
             evs += [["v", base[k], c] for c in conts if c == c0 or k + 1 >= lo]
         if lo <= k <= hi:
-            evs += [["f", kind, c] for kind, c in self.ad.faults(state["est"], state["D"])]
+            evs += [["f", kind, c] for kind, c in self._faults(state)]
         return evs
 
     # -- call-site class of a malformed call (signature of what it causes) -------
@@ -1109,6 +1129,10 @@ class Inject(System):
                 ctx.count("later_compared_while_election_waiting")
             if state["after"] == 1:
                 ctx.count("next_container:" + cont)
+                if self.family:
+                    ctx.count(self.family + "_next_container:" + cont)
+            if self.family:
+                ctx.count(self.family + "_later_compared:" + ad.name)
         elif cont != cfg["c0"]:
             state["must_fault"] = True
         state["k"] += 1
@@ -1229,6 +1253,15 @@ class Inject(System):
             ctx.count("method:" + kind.split("@")[1])
         ctx.count("container:" + cont)
         ctx.count("rejections:" + ad.name)
+        if self.family:
+            f = self.family
+            ctx.count(f + "_rejections")
+            ctx.count(f + "_rejections:" + ad.name)
+            ctx.count(f + "_kind:" + kind.split("@")[0])
+            ctx.count(f + "_layout:" + cont)
+            ctx.count(f + "_rejected_at_first_call" if k == 0 else f + "_rejected_later")
+            if before["state"] == "drift":
+                ctx.count(f + "_rejected_right_after_drift")
         if ad.is_ensemble and ad.waiting(D):
             ctx.count("rejected_while_election_waiting:" + ad.name)
         if est["width"] is not None and kind.split("@")[0] in ("wrong_width", "multicol"):
@@ -1243,13 +1276,38 @@ class Inject(System):
         return o
 
 
+class InjectShape(Inject):
+    """``inject-shape-<Detector>`` (round 4): the same injection scheme and oracle; the malformed calls are the ones of
+    ``Adapter.shape_faults`` -- the wrong number of observations / values in every LAYOUT it can arrive in (flat, column,
+    row, nested, 3-D, 2 x 2 block, empty; lists, tuples, lists of arrays, 1-D / 2-D ndarrays, Series, DataFrames) -- and
+    the two valid neighbours of the malformed call use ``Adapter.shape_neighbours`` (bare numbers, 0-dimensional arrays,
+    tuples, nested lists: the containers whose np.ndim / len differ from the 2-D ndarray's)."""
+
+    family = "shape"
+
+    def __init__(self, ad):
+        self.ad = ad
+        self.name = "inject-shape-" + ad.name
+
+    def _conts(self, cfg):
+        return cfg.get("nb") or self.ad.shape_neighbours
+
+    def _faults(self, state):
+        return self.ad.shape_faults(state["est"], state["D"])
+
+
 # ----------------------------------------------------------------------------
 # container equivalence
 # ----------------------------------------------------------------------------
 class Equiv(System):
+    family = "equiv"
+
     def __init__(self, ad):
         self.ad = ad
         self.name = "equiv-" + ad.name
+
+    def _conts(self, sym):
+        return self.ad.eq_containers(sym)
 
     def init(self, cfg):
         rng.seed_step(0, self.name, cfg["id"], "init")
@@ -1259,7 +1317,7 @@ class Equiv(System):
         h = cfg["hist"]
         if pos >= len(h):
             return []
-        return [["v", h[pos], c] for c in self.ad.eq_containers(h[pos])]
+        return [["v", h[pos], c] for c in self._conts(h[pos])]
 
     def _reference(self, cfg, seed):
         ad, p = self.ad, cfg["params"]
@@ -1300,14 +1358,30 @@ class Equiv(System):
                 expected={k: exp.get(k) for k in bad}, observed={k: od.get(k) for k in bad},
                 sig="container-differs:%s:%s" % (ad.name, cont),
             )
-        ctx.count("equiv_compared_steps")
-        ctx.count("equiv_container:" + cont)
+        f = self.family
+        ctx.count(f + "_compared_steps")
+        ctx.count(f + "_container:" + cont)
         if cont != ad.canonical:
-            ctx.mark("equiv_noncanonical_calls")
+            ctx.mark(f + "_noncanonical_calls")
         if od["state"] == "drift":
-            ctx.count("equiv_drift_steps")
-            ctx.count("equiv_drift_steps:" + ad.name)
+            ctx.count(f + "_drift_steps")
+            ctx.count(f + "_drift_steps:" + ad.name)
         return od
+
+
+class EquivX(Equiv):
+    """``equivx-<Detector>`` (round 4): container equivalence for the one-observation containers ``equiv-*`` does not
+    use -- numpy scalar, 0-dimensional ndarray, tuple, nested list / tuple, list of arrays -- against the same all-2-D-
+    ndarray reference run."""
+
+    family = "equivx"
+
+    def __init__(self, ad):
+        self.ad = ad
+        self.name = "equivx-" + ad.name
+
+    def _conts(self, sym):
+        return self.ad.eqx_containers(sym)
 
 
 # ----------------------------------------------------------------------------
@@ -1560,8 +1634,13 @@ for _a in ADAPTERS.values():
         SYSTEMS["equiv-" + _a.name] = Equiv(_a)
     if _a.reuse_kinds:
         SYSTEMS["reuse-" + _a.name] = Reuse(_a)
+    if _a.name != "MD3":
+        SYSTEMS["inject-shape-" + _a.name] = InjectShape(_a)
+        SYSTEMS["equivx-" + _a.name] = EquivX(_a)
 for _a in ENSEMBLES.values():
     SYSTEMS["inject-" + _a.name] = Inject(_a)
+    if _a.kind == "stream":
+        SYSTEMS["inject-shape-" + _a.name] = InjectShape(_a)
 
 for _n in ("KdqTreeStreaming", "KdqTreeBatch", "HDDDM", "CDBD", "NNDVI", "PCACD"):
     ADAPTERS[_n].quick_prefix = 1
@@ -1624,8 +1703,42 @@ def reuse_variants(ad, tier):
     return out
 
 
-def _inject_tasks(name, ad, tier, out):
-    if name == "MD3":
+def shape_prefix(ad, tier):
+    """inject-shape-*: enumerated prefix length of the base histories (the family multiplies the number of malformed
+    calls, not of histories: one symbol shorter than inject-* in quick, the same in thorough)"""
+    if tier != "quick":
+        return ad.quick_prefix
+    if ad.is_ensemble:
+        return 0
+    return max(0, ad.quick_prefix - (2 if ad.quick_prefix >= 3 else 1))
+
+
+def shaped(tier):
+    """{name: adapter} of the detectors / ensembles that have an inject-shape-* family in this tier (ensembles: those
+    with a member that reads the labels)"""
+    out = {}
+    for n, a in list(ADAPTERS.items()) + list(ENSEMBLES.items()):
+        if "inject-shape-" + n not in SYSTEMS:
+            continue
+        if a.is_ensemble and not any(t == "ddm" for p in _params(a, tier) for _, t, _c in p["members"]):
+            continue
+        out[n] = a
+    return out
+
+
+def shape_nb(name, ad, tier):
+    """inject-shape-*: containers of the two valid neighbours of the malformed call (slow detectors, quick tier: the
+    2-D ndarray and the first of the others)"""
+    nb = list(ad.shape_neighbours)
+    return nb[:2] if tier == "quick" and name in SLOW else nb
+
+
+def _inject_tasks(name, ad, tier, out, shape=False):
+    fam = "inject-shape-" if shape else "inject-"
+    bases = ad.bases(tier, shape_prefix(ad, tier)) if shape else ad.bases(tier)
+    if shape:
+        defaults = ("ndarray",)
+    elif name == "MD3":
         defaults = ("DataFrame",)
     elif tier != "thorough":
         defaults = ("ndarray",)
@@ -1634,19 +1747,22 @@ def _inject_tasks(name, ad, tier, out):
     else:
         defaults = ("ndarray", "DataFrame", "list")
     for pi, p in enumerate(_params(ad, tier)):
-        for bi, base in enumerate(ad.bases(tier)):
+        for bi, base in enumerate(bases):
             L = len(base)
             n = 1 if name.startswith(("Kdq", "BEns")) else 2 if name in SLOW and not name.startswith("SEns") else 3 if L > 6 else L + 1
+            if shape and n > 1:
+                n = 1 if name in SLOW and not name.startswith("SEns") else 2
             chunks = [(i, min(i + n - 1, L)) for i in range(0, L + 1, n)]
             for c0 in defaults:
                 for lo, hi in chunks:
                     out.append({
-                        "system": "inject-" + name,
-                        "cfg": {"id": pi, "params": p, "base": base, "c0": c0, "pos": [lo, hi]},
+                        "system": fam + name,
+                        "cfg": dict({"id": pi, "params": p, "base": base, "c0": c0, "pos": [lo, hi]},
+                                    **({"nb": shape_nb(name, ad, tier)} if shape else {})),
                         "prefix": [],
                         "depth": L + 1,
-                        "label": "inject-%s|%d|base%d|%s|pos%d-%d" % (name, pi, bi, c0, lo, hi),
-                        "cost": SLOW.get(name, 1) * L,
+                        "label": "%s%s|%d|base%d|%s|pos%d-%d" % (fam, name, pi, bi, c0, lo, hi),
+                        "cost": SLOW.get(name, 1) * L * (3 if shape else 1),
                         "validate_every": 97,
                     })
 
@@ -1668,6 +1784,20 @@ def tasks(tier, seed):
                         "cost": SLOW.get(name, 1),
                         "validate_every": 97,
                     })
+        if "inject-shape-" + name in SYSTEMS:
+            _inject_tasks(name, ad, tier, out, shape=True)
+            for pi, p in enumerate(_params(ad, tier)):
+                for hi, h in enumerate(ad.eq_hist):
+                    for c in ad.eqx_containers(h[0]):
+                        out.append({
+                            "system": "equivx-" + name,
+                            "cfg": {"id": pi, "params": p, "hist": h},
+                            "prefix": [["v", h[0], c]],
+                            "depth": len(h) - 1,
+                            "label": "equivx-%s|%d|hist%d|%s" % (name, pi, hi, c),
+                            "cost": SLOW.get(name, 1),
+                            "validate_every": 97,
+                        })
         if ad.reuse_kinds:
             for pid, p in reuse_configs(ad, tier):
                 for hi, h in enumerate(reuse_hists(ad, tier)):
@@ -1681,6 +1811,8 @@ def tasks(tier, seed):
                         })
     for name, ad in ENSEMBLES.items():
         _inject_tasks(name, ad, tier, out)
+        if name in shaped(tier):
+            _inject_tasks(name, ad, tier, out, shape=True)
     return out
 
 
@@ -1691,7 +1823,7 @@ _KINDS = ["two_rows", "two_rows_other_width", "two_rows_renamed", "one_row", "on
 
 TIME_BUDGET = {"quick": 1800, "thorough": 9000}  # safety net for a heavily shared machine; ~25 CPU-s/core quick
 
-REQUIRED = (
+_REQUIRED = (
     ["rejections", "rejected_at_first_call", "rejected_in_middle", "rejected_at_end", "rejected_right_after_drift",
      "rejected_right_after_set_reference", "later_accepted_calls_compared", "name_rule_rejections",
      "width_rule:list_after_array", "width_rule:ndarray_after_array", "width_rule:ndarray_after_DataFrame",
@@ -1721,6 +1853,31 @@ REQUIRED = (
     + ["ensemble_member_pending_resets", "later_compared_while_election_waiting"]
 )
 
+_SHAPE_KINDS = ["y_true_multi", "y_pred_multi", "y_both_multi", "y_true_empty", "y_pred_empty", "multicol", "two_values",
+                "three_rows", "two_rows", "no_rows", "wrong_width", "two_rows_flat", "one_value", "one_row",
+                "row_of_values", "flat_column"]
+
+
+def REQUIRED(tier):
+    """round 4: inject-shape-* / equivx-* are exercised (none of these counters depends on random draws: which calls
+    are malformed, rejected and compared is decided by the histories; the drifts counted are those of the
+    deterministic detectors)"""
+    sh = shaped(tier)
+    nb = sorted({c for n, a in sh.items() for c in shape_nb(n, a, tier)})
+    return (
+        list(_REQUIRED)
+        + ["shape_rejections", "shape_rejected_at_first_call", "shape_rejected_later", "shape_rejected_right_after_drift"]
+        + ["shape_rejections:" + n for n in sh]
+        + ["shape_later_compared:" + n for n in sh]
+        + ["shape_kind:" + k for k in _SHAPE_KINDS]
+        + ["shape_layout:%s/%d" % fk for fk in Y_SHAPES]
+        + ["shape_layout:" + c for c in ("tuple2", "list.of-nd", "nd1", "Series", "tuple", "scalar", "nd0", "list1", "list2")]
+        + ["shape_next_container:" + c for c in nb]
+        + ["equivx_compared_steps", "equivx_noncanonical_calls", "equivx_drift_steps"]
+        + ["equivx_container:" + c for c in ("npscalar", "nd0", "tuple", "list2", "tuple2", "list.of-nd")]
+        + ["equivx_drift_steps:" + n for n in ("CUSUM", "PageHinkley", "ADWIN", "DDM")]
+    )
+
 
 def describe(tier):
     return {
@@ -1735,8 +1892,25 @@ def describe(tier):
         "(stream, 3 for SEns-one) / 0 (batch) in quick, one more in thorough); "
         "reuse-*: per detector, parameter set, reusable container kind and dtype, every assignment of {fresh 2-D "
         "ndarray, the caller's ONE reused object of that kind (overwritten in place before the call)} to the positions "
-        "of the listed histories (2^L paths)",
+        "of the listed histories (2^L paths); "
+        "inject-shape-* (round 4): the inject-* scheme and oracle with the malformed calls of bounds.shape_faults -- "
+        "the wrong number of observations / values in every layout (flat, column, row, nested, list of arrays, 3-D, "
+        "2 x 2 block, empty; list, tuple, 1-D / 2-D / 3-D ndarray, Series, DataFrame) x every position x containers of "
+        "the two valid neighbours from bounds.shape_neighbours; base histories: prefix length bounds.shape_prefix; "
+        "equivx-* (round 4): every assignment of bounds.equivx_containers (numpy scalar, 0-dimensional ndarray, tuple, "
+        "nested list / tuple, list of arrays) to the positions of the equivalence histories, against the all-2-D-ndarray run",
         "bounds": {
+            "shape_prefix": {n: shape_prefix(a, tier) for n, a in shaped(tier).items()},
+            "shape_neighbours": {n: shape_nb(n, a, tier) for n, a in shaped(tier).items()},
+            "shape_faults": {
+                "label detectors (DDM, EDDM, STEPD, ADWINAccuracy, LinearFourRates, ensembles with a label member)":
+                    ["%s:%s" % kc for kc in y_shape_faults()],
+                "ADWIN, CUSUM, PageHinkley": ["%s:%s" % kc for kc in ADAPTERS["ADWIN"].shape_faults({"width": 1, "names": None}, None)],
+                "KdqTreeStreaming, PCACD": ["%s:%s" % kc for kc in ADAPTERS["PCACD"].shape_faults({"width": 2, "names": None}, None)],
+                "CDBD": ["%s:%s" % kc for kc in ADAPTERS["CDBD"].shape_faults({"width": 1, "names": None}, None)],
+                "HDDDM, KdqTreeBatch, NNDVI": ["%s:%s" % kc for kc in ADAPTERS["HDDDM"].shape_faults({"width": 2, "names": None}, None)],
+            },
+            "equivx_containers": {n: a.eqx_containers(a.eq_hist[0][0]) for n, a in ADAPTERS.items() if "equivx-" + n in SYSTEMS},
             "base_history_length": {n: len(a.bases(tier)[0]) for n, a in ADAPTERS.items()},
             "base_histories": {n: len(a.bases(tier)) for n, a in ADAPTERS.items()},
             "parameter_sets": {n: len(_params(a, tier)) for n, a in ADAPTERS.items()},
@@ -1784,6 +1958,13 @@ def describe(tier):
             "all); a member that is in drift when the malformed call arrives may perform its own pending "
             "re-initialisation before the call is refused (same rule as for single detectors); any other change of a "
             "member by a refused call is a violation (signature ensemble-member-updated-by-rejected-call:*)",
+            "inject-shape-*: the label layouts count OBSERVATIONS (elements), whatever their arrangement: a (1, k), "
+            "(k, 1), (1, 1, k) or 2 x 2 container of labels holds k resp. 4 observations and an empty one none, all "
+            "refused; for X the streaming convention (1-D = one row) and the batch convention (1-D = one column) of the "
+            "library decide what a flat container means; X with more than two dimensions is not injected (outside "
+            "the documented 'one row of features' / 'input data' domain); BatchDetector._validate_y is not exercised (no "
+            "batch detector of the library reads labels); MD3 and the ensembles without a label member have no "
+            "inject-shape family (their X faults are those of their members' families)",
             "reuse-*: the caller overwrites its object only between calls (never during one) and only objects it "
             "owns; list containers hold python numbers; labels are integers; whether a call changes the caller's object "
             "is C15's subject (counted as reuse_caller_object_changed_by_call, not judged)",
